@@ -110,6 +110,11 @@ def check(prog: Program, run: Run) -> None:
              "leading digits", floor=4)
     run.rule("C16.R4", "copy/__copy__/__deepcopy__/__reduce__ rebuild both views without "
              "aliasing the original's name dictionary", floor=4)
+    run.rule("C16.R5", "inside the package a NamedItemList is only mutated through the "
+             "operations ItemAttributeList overrides (no +=, item assignment, sort, ... on it)",
+             floor=1)
+    from . import common
+    common.g9_named_list_raw_mutation(prog, run, "C16.R5")
     ci = prog.cls(CLS)
     mod = ci.module
 
